@@ -7,9 +7,10 @@ from collections import Counter
 
 import vlib
 from props import _store as S
+from props import _fin
 
 LEVEL = "proof"
-HARNESSES = [("h_store", "rel")]
+HARNESSES = [("h_store", "rel"), ("h_fin", "ndebug")]
 ASSUMPTIONS = [
     "twin histories are API-conformant (harness answers SKIP outside documented preconditions: setState / invalidate / "
     "remove that would unapply a final block)",
@@ -48,7 +49,12 @@ META = {
             "finalizing: equal answers of acceptBlockHeader/acceptBlock/setState/comparePopScore/getPopPayout for "
             "every candidate descending from F's final block, refusal of every candidate forking below it, monotone "
             "final block, equal state of the retained part of all three trees; finalizeBlocks of the extracted model "
-            "is compared with AltBlockTree::finalizeBlocks on every second finalization of the fin-mode histories.",
+            "is compared with AltBlockTree::finalizeBlocks on every second finalization of the fin-mode histories. "
+            "Final-block guard (props/_fin.py, harness/h_fin.cpp, coq/Store/FinalGuard.v): on a library built as a Release "
+            "build is (NDEBUG), direct setState onto stale forks that fork below the final block inside the preserved "
+            "window and removeSubtree / invalidateSubtree of active finalized blocks are attempted in child processes; "
+            "each must abort or refuse and leave every finalized block active (C09_guarded_history_keeps_final, "
+            "C09_final_guard_debug_only_refuted for the variant whose check is compiled out).",
     "note": "Known finding ctx-keystone-dealloc (preserve == settlement deallocates keystones needed by "
             "CheckPublicationData): reproduced by a corpus witness on every run (KNOWN-FINDING), excluded from the "
             "generated histories by alt_preserve >= settle + 2*ki + 2. "
@@ -281,6 +287,9 @@ def run(ctx):
     stats = Counter()
     t0 = time.time()
 
+    if ctx.replay and ctx.replay.get("kind") == "fin":
+        _fin.run(ctx)
+        return
     if ctx.replay and ctx.replay.get("kind") == "script":
         rp = ctx.replay
         sc = S.Script()
@@ -401,3 +410,5 @@ def run(ctx):
     ctx.cov["disagreements_checked"] = sum(v for k, v in stats.items() if k.startswith("op:")) + stats["state_lines_compared"]
     ctx.cov["traces_validated_against_impl"] = evaluations
     ctx.sample({"plan(mode,save_every,histories,steps)": plan})
+    # extra stage: the final-block guard on an NDEBUG build (direct setState / remove / invalidate in a child process)
+    _fin.run(ctx)
